@@ -32,8 +32,8 @@ import (
 // ---- case description -------------------------------------------------------
 
 type kidPlan struct {
-	// exit: sh, sleeps DelayMs then exits Code | sleep: `sleep 5` (dies of SIGTERM) |
-	// stubborn: sh that ignores SIGTERM then execs sleep 5 | goterm: Go child, logs SIGTERM, exits 0 |
+	// exit: exits Code after DelayMs | sleep: `sleep 30` (dies of SIGTERM) |
+	// stubborn: sh that ignores SIGTERM then execs sleep 30 | goterm: Go child, logs SIGTERM, exits 0 |
 	// gostubborn: Go child, logs SIGTERM, keeps running | fail / nil / notstarted: producer faults
 	Kind    string `json:"kind"`
 	Code    int    `json:"code,omitempty"`
@@ -90,6 +90,14 @@ type result struct {
 
 const roleEnv = "VERIF_C39_ROLE"
 
+// long-lived children outlive every history by far: a child the master forgets to signal keeps
+// prefork from returning until the per-history watchdog fires (classified as a property failure)
+const (
+	longLife     = 30 * time.Second
+	longLifeSecs = "30"
+	watchdog     = 10 * time.Second
+)
+
 // ---- child role: a Go child that reports SIGTERM ------------------------------
 
 func childMain() {
@@ -104,7 +112,7 @@ func childMain() {
 	signal.Notify(ch, syscall.SIGTERM)
 	logf := os.Getenv("VERIF_C39_TERMLOG")
 	stubborn := os.Getenv("VERIF_C39_STUBBORN") == "1"
-	deadline := time.After(5 * time.Second)
+	deadline := time.After(longLife)
 	for {
 		select {
 		case <-ch:
@@ -226,9 +234,9 @@ func runCase(d desc) result {
 			}
 			minLife = int64(pl.DelayMs) * int64(time.Millisecond)
 		case "sleep":
-			cmd = exec.Command("/bin/sleep", "5")
+			cmd = exec.Command("/bin/sleep", longLifeSecs)
 		case "stubborn":
-			cmd = exec.Command("/bin/sh", "-c", `trap "" TERM; exec sleep 5`)
+			cmd = exec.Command("/bin/sh", "-c", `trap "" TERM; exec sleep `+longLifeSecs)
 		case "goterm", "gostubborn":
 			cmd = exec.Command(self)
 		default:
@@ -329,9 +337,9 @@ func runCase(d desc) result {
 		res.Returned = true
 		res.Err = errClass(r.err, r.panicked)
 		res.RetTs = r.ts
-	case <-time.After(12 * time.Second):
+	case <-time.After(watchdog):
 		res.Returned = false
-		res.Note = "prefork did not return within 12s"
+		res.Note = "prefork did not return within " + watchdog.String()
 	}
 
 	// ---- observe the children (only those this producer started) ----
@@ -758,6 +766,25 @@ func corpus() []desc {
 			add(d)
 		}
 	}
+	// OnChildSpawn rejects a REPLACEMENT that is long-lived: it must be in childProcs when the teardown runs
+	for g := 1; g <= 3; g++ {
+		for nth, repl := range []string{"sleep", "stubborn", "gostubborn", "goterm"} {
+			d := base(g, 3, 30*(nth%2), 100)
+			d.HookSpawn, d.HookRecover = true, nth%2 == 0
+			for j := 0; j < g-1; j++ {
+				d.Kids = append(d.Kids, kd(hlib.Pick(rand.New(rand.NewSource(int64(g*10+nth+j))), []string{"sleep", "stubborn", "goterm"})))
+			}
+			d.Kids = append(d.Kids, ex(3, 10))
+			k := nth % 2 // reject the first or the second replacement
+			for j := 0; j < k; j++ {
+				d.Kids = append(d.Kids, ex(0, 5))
+			}
+			d.Kids = append(d.Kids, kd(repl))
+			d.HookAt = g + k
+			d.HookPanic = nth == 3
+			add(d)
+		}
+	}
 	for _, rd := range []int{1, 2} {
 		d := base(2, 1, 50, 100)
 		d.HookReady, d.Ready = true, rd
@@ -816,6 +843,10 @@ func gen(r *rand.Rand, i int) desc {
 	for j := 0; j < total; j++ {
 		if j == faultAt && ending == 1 {
 			d.Kids = append(d.Kids, kd(hlib.Pick(r, []string{"fail", "nil", "notstarted"})))
+			continue
+		}
+		if ending == 2 && j == d.HookAt && r.Intn(3) != 0 {
+			d.Kids = append(d.Kids, kd(hlib.Pick(r, long)))
 			continue
 		}
 		if nLong < maxLong && r.Intn(2) == 0 {
